@@ -1,7 +1,7 @@
 (* Property C08 — locked LP can only return to its owner, only after unlocking, and in full.
    Statements only; proofs in Proofs/FarmProofs.v, Proofs/FarmChainProofs.v, Proofs/PmProofs.v, Proofs/AuthProofs.v. *)
 From MD.Model Require Import Base Ownable Epoch PoolMath Types PoolManager FarmManager Chain.
-From MD.Proofs Require Import ChainProofs PmProofs AuthProofs WeightProofs FarmProofs FarmChainProofs BankProofs TxBalances.
+From MD.Proofs Require Import ChainProofs PmProofs AuthProofs WeightProofs FarmProofs FarmChainProofs BankProofs TxBalances PositionsSafe PositionsExample.
 
 (* who may do what with a position *)
 Theorem C08_position_roles : forall w sender funds m s' msgs,
@@ -143,6 +143,53 @@ Theorem C08_withdrawal_transaction_moves_exactly_these_balances : forall w sende
         + ind (String.eqb a sender) (ind (String.eqb (denom_of (pos_lp p)) d) (amount_of (pos_lp p))).
 Proof. exact position_withdraw_tx_balances. Qed.
 
+(* OVER HISTORIES. Whatever OTHER people do: through any history of operations none of which is signed by the owner o
+   (a user address, not one of the four contracts) — with every call between the contracts (the pool manager locking LP
+   for depositors included), replies, rejected operations and injected faults — every position of o survives with the
+   same identifier, owner, LP denom, unlocking duration, open/closed state and unlock instant, and with AT LEAST its
+   recorded amount (others can only add, through the pool manager, to an OPEN position); a closed position does not
+   change at all. "The recorded amount of a position changes only by its owner's deposits, closes and withdrawals". *)
+Theorem C08_positions_survive_other_peoples_histories : forall o ops w,
+  o <> EM -> o <> FC -> o <> PM -> o <> FM ->
+  Forall (not_signed_by o) ops ->
+  pos_fresh (w_fm w) ->
+  forall id q, sfind pos_id id (fm_positions (w_fm w)) = Some q -> pos_recv q = o ->
+    exists q', sfind pos_id id (fm_positions (w_fm (run w ops))) = Some q' /\
+      pos_id q' = pos_id q /\ pos_recv q' = pos_recv q /\ denom_of (pos_lp q') = denom_of (pos_lp q) /\
+      pos_dur q' = pos_dur q /\ pos_open q' = pos_open q /\ pos_exp q' = pos_exp q /\
+      amount_of (pos_lp q) <= amount_of (pos_lp q') /\
+      (pos_open q = false -> q' = q).
+Proof. exact others_histories_keep_positions. Qed.
+
+(* ... stated from genesis (the freshness of generated identifiers holds in every reachable world) *)
+Theorem C08_positions_survive_in_every_reachable_world : forall g w0 pre o ops,
+  genesis_world g = Ok w0 -> 0 <= amount_of (fm_create_fee (g_fm g)) ->
+  o <> EM -> o <> FC -> o <> PM -> o <> FM ->
+  Forall (not_signed_by o) ops ->
+  forall id q, sfind pos_id id (fm_positions (w_fm (run w0 pre))) = Some q -> pos_recv q = o ->
+    exists q', sfind pos_id id (fm_positions (w_fm (run (run w0 pre) ops))) = Some q' /\ pos_kept q q'.
+Proof. exact reachable_positions_safe. Qed.
+
+(* ... hence a CLOSED position is still there, exactly as it was, and its owner can withdraw it in full from the unlock
+   instant on — however long the others' history and whatever they did *)
+Theorem C08_closed_position_still_withdrawable_after_any_history_of_others : forall o ops w id q e,
+  o <> EM -> o <> FC -> o <> PM -> o <> FM ->
+  Forall (not_signed_by o) ops ->
+  pos_fresh (w_fm w) ->
+  sfind pos_id id (fm_positions (w_fm w)) = Some q -> pos_recv q = o ->
+  pos_open q = false -> pos_exp q = Some e ->
+  sfind pos_id id (fm_positions (w_fm (run w ops))) = Some q /\
+  ((exists s' msgs, withdraw_position (run w ops) o [] id None = Ok (s', msgs)) <->
+   e <= seconds (w_block (run w ops))).
+Proof. exact closed_position_still_withdrawable. Qed.
+
+(* the hypotheses are met by a real history (kernel-evaluated): alice's closed position "u-p" (500000 LP) sits through
+   bob's and carol's operations — attempts to lock into it through the pool manager, to withdraw / emergency-withdraw /
+   close / expand it, to create a position on her behalf, a colliding identifier (all rejected), their own accepted
+   positions and locked deposit, days passing, a claim — and she then withdraws exactly 500000 LP *)
+Theorem C08_positions_example : positions_statement.
+Proof. exact positions_example. Qed.
+
 Print Assumptions C08_position_roles.
 Print Assumptions C08_pool_manager_locks_only_for_depositor.
 Print Assumptions C08_withdraw_iff.
@@ -155,3 +202,7 @@ Print Assumptions C08_others_cannot_touch_a_position.
 Print Assumptions C08_generated_identifiers_never_collide.
 Print Assumptions C08_genesis_fresh.
 Print Assumptions C08_withdrawal_transaction_moves_exactly_these_balances.
+Print Assumptions C08_positions_survive_other_peoples_histories.
+Print Assumptions C08_positions_survive_in_every_reachable_world.
+Print Assumptions C08_closed_position_still_withdrawable_after_any_history_of_others.
+Print Assumptions C08_positions_example.
